@@ -39,11 +39,16 @@ func ruleIDX1(p *Prog) *RuleResult {
 					if g == nil || len(call.Call.Args) < 2 || !e.lv.isTableRef(call.Call.Args[0].Type()) {
 						continue
 					}
-					if !strings.Contains(g.Name(), "AtIndex") && g.Name() != "needsCopyOnWrite" {
+					pos := 1
+					switch {
+					case strings.Contains(g.Name(), "AtIndex"), g.Name() == "needsCopyOnWrite":
+					case g.Name() == "advanceUntil" && len(call.Call.Args) >= 3:
+						pos = 2 // advanceUntil(key, pos): the search starts behind position pos of that table
+					default:
 						continue
 					}
 					root := t.root(call.Call.Args[0])
-					idx := call.Call.Args[1]
+					idx := call.Call.Args[pos]
 					// the cursor variable: strip +k
 					for {
 						if bo, ok := idx.(*ssa.BinOp); ok {
